@@ -38,8 +38,34 @@ func expectedGenuine(c drvCfg, f replyForm, ttl int, from string) (tok string, a
 
 // genCompletenessCase: send a set of TTLs, then deliver every catalogue form for every sent TTL.
 func genCompletenessCase(t *testing.T, r *hx.RNG, c drvCfg, nTTL int) matcherCase {
+	if c.Max == c.Min && c.Max < 255 {
+		c.Max++
+	}
+	lo := c.Min + 1
+	if lo > c.Max {
+		lo = c.Max
+	}
+	if c.kind() == "sack" && r.Chance(2, 3) {
+		// put the 32-bit wrap INSIDE the run: ISN + ttl crosses 2^32 at a probed TTL > min
+		c.ISN = uint32(0) - uint32(r.Range(lo, c.Max))
+	}
+	if c.Variant == "tcp" && r.Chance(2, 3) {
+		c.BaseID = uint16(0) - uint16(r.Range(lo, c.Max)) // 16-bit wrap inside the run
+	}
 	all := rangeTTLs(c.Min, c.Max)
 	pick := map[int]bool{c.Min: true, c.Max: true}
+	wrapAt := -1
+	if c.kind() == "sack" {
+		wrapAt = int(uint32(0) - c.ISN) // TTL at which ISN + ttl wraps to 0
+	}
+	if c.Variant == "tcp" {
+		wrapAt = int(uint16(0) - c.BaseID)
+	}
+	for _, x := range []int{wrapAt - 1, wrapAt, wrapAt + 1} {
+		if wrapAt >= 0 && x >= c.Min && x <= c.Max {
+			pick[x] = true
+		}
+	}
 	for len(pick) < nTTL && len(pick) < len(all) {
 		pick[hx.Pick(r, all)] = true
 	}
